@@ -391,6 +391,18 @@ func drawC05Scenario(s *Sim, r *Rng) *Scenario {
 		if r.Intn(3) == 0 {
 			p.HookID = r.Bytes(32)
 		}
+		if r.Intn(5) == 0 {
+			// byte fields of the wrong length cannot be carried by the 32-byte fields of the request: whatever reaches
+			// the bridge must still be exactly the payload's bytes, i.e. nothing may reach it
+			switch r.Intn(3) {
+			case 0:
+				p.Recipient32 = r.Bytes([]int{20, 31, 33, 40, 64}[r.Intn(5)])
+			case 1:
+				p.HookID = r.Bytes([]int{20, 31, 33, 40}[r.Intn(4)])
+			default:
+				p.Token = append(s.Env.HypTokens[DenomUSDC].Bytes(), r.Bytes(1+r.Intn(8))...)
+			}
+		}
 		if r.Intn(3) == 0 {
 			p.HookMeta = "0x" + fmt.Sprintf("%x", r.Bytes(1+r.Intn(20)))
 		}
